@@ -43,6 +43,7 @@ func (s *shape) suffix() string { return fmt.Sprintf("_%d", s.N) }
 
 func allShapes(thorough bool) []shape {
 	ss := &shapeSet{}
+	allShapes5(ss, thorough) // shapes5_test.go (first: its programs with a file of their own lead the work list)
 	shapesDefer(ss, thorough)
 	shapesDeferMisc(ss)
 	shapesInit(ss, thorough)
